@@ -7,5 +7,11 @@ mkdir -p bin build evidence replays .locks lean/Hv/Generated
 echo "[setup] extract"; (cd extract && go build -o ../bin/extract .)
 echo "[setup] facts"; bin/extract -repo "${VERIF_REPO:-/repo}" >/dev/null || true
 echo "[setup] lake build"; (cd lean && lake build Hv Driver drv 2>&1 | grep -v '^trace' | tail -n 40)
-echo "[setup] hx"; cp "${VERIF_REPO:-/repo}/go.sum" harness/go.sum; (cd harness && go build -tags verif -o ../bin/hx .)
+echo "[setup] hx"; python3 - <<'PY'
+import sys, os
+sys.path.insert(0, os.getcwd())
+from checks import common as K
+ctx = K.Ctx("setup", "quick", 1)
+sys.exit(0 if K.build_hx(ctx) else 1)
+PY
 echo "[setup] done"
